@@ -91,7 +91,7 @@ def main(run):
     rng = random.Random(run.seed)
     lat = lattice.prec_lattice(tier)
     if tier == "quick":
-        lat = [p for k, p in enumerate(lat) if p["family"] in ("F-setsym", "F-edge") or k % 9 == 0]
+        lat = [p for k, p in enumerate(lat) if p["family"] in ("F-setsym", "F-edge", "F-regress") or k % 9 == 0]
         gen = ktree.generate(run.seed + 300, 30)
         maxlen, cap, nwalk = 3, 140, 8
     else:
